@@ -74,7 +74,10 @@ fn next_backup_num(file: &Path) -> Result<u64> {
         .filter_map(|der| is_num_backup(&fname, &der.ok()?.path()))
         .max()
         .unwrap_or(0);
-    Ok(current + 1)
+    // The next number must exceed every existing one: refuse rather
+    // than wrap around onto an existing backup.
+    current.checked_add(1)
+        .ok_or_else(|| XcpError::InvalidDestination("Backup numbers exhausted.").into())
 }
 
 fn is_num_backup(base_file: &str, candidate: &Path) -> Option<u64> {
